@@ -84,6 +84,14 @@ pub fn content_matches(truth: &builder::TruthBlock, observed: &str, crlf: bool) 
 }
 
 pub fn check(c: &SrcCase, probe: &Probe) -> Verdict {
+    check_as("C03", c, probe, &|p: &Prepared| {
+        let truth = &p.built.blocks;
+        let nested = truth.iter().any(|b| b.depth > 0);
+        (truth.len() >= 2 && nested || p.built.n_decoys >= 1) && (p.built.n_multiline_comments >= 1 || p.built.n_joined >= 1)
+    })
+}
+
+pub fn check_as(prop: &str, c: &SrcCase, probe: &Probe, nontrivial: &dyn Fn(&Prepared) -> bool) -> Verdict {
     let p = prepare(c);
     probe.class(&format!("suffix:{}", p.suffix));
     if langs::healthy(p.lang.id, &p.built.text) == Some(false) {
@@ -96,7 +104,7 @@ pub fn check(c: &SrcCase, probe: &Probe) -> Verdict {
     }
     let truth = &p.built.blocks;
     let nested = truth.iter().any(|b| b.depth > 0);
-    if (truth.len() >= 2 && nested || p.built.n_decoys >= 1) && (p.built.n_multiline_comments >= 1 || p.built.n_joined >= 1) {
+    if nontrivial(&p) {
         probe.nontrivial();
     }
     probe.class(&format!("blocks:{}", truth.len().min(6)));
@@ -123,7 +131,7 @@ pub fn check(c: &SrcCase, probe: &Probe) -> Verdict {
     probe.sample(|| json!({"file": p.file, "text": crate::cli::trunc(&p.built.text, 700), "blocks_by_construction": truth.iter().map(|b| json!({"line": b.line, "col": b.col, "attrs": b.attrs, "content": crate::cli::trunc(&b.content, 80)})).collect::<Vec<_>>()}));
     let show = |what: &str, o: &crate::cli::Out| {
         format!(
-            "C03 [{}]: {what}\n--- {} ---\n{}\n--- blocks by construction ---\n{}\n--- observed ---\n{}",
+            "{prop} [{}]: {what}\n--- {} ---\n{}\n--- blocks by construction ---\n{}\n--- observed ---\n{}",
             p.suffix,
             p.file,
             p.built.text,
